@@ -11,6 +11,9 @@
  *         -> supp <name> n=<N> bad=<count> first=<index>:<value bits> nonfinite=<count> min=<bits> max=<bits>
  *   distdrv stat     samples for the statistical tier:
  *       stat <name> <N> <seed> <params...>   -> "stat <name> <N>\n" followed by N raw doubles (integers converted)
+ *   distdrv (any mode), far-tail statistics:
+ *       tail <name> <N> <seed> <r> <t1> ... <tk>   name = std_normal | std_exponential (or a parameterless sampler)
+ *         -> tail <name> n=<N> sum=<sum of |x| - r over |x| > r> sumsq=<sum of squares> counts <#|x|>r> <#|x|>t1> ...
  *   Parameters of `supp` / `stat` are decimal (strtod) or 0x<16 hex digits> bit patterns.
  */
 #define _GNU_SOURCE
@@ -259,6 +262,39 @@ static void supp_line(char *line)
     if (alias != NULL) cmb_random_alias_destroy(alias);
 }
 
+/* tail <name> <N> <seed> <r> <t1> ... <tk>  -> counts of |x| > r, > t1, ..., > tk and the sum / sum of squares of the excess |x| - r */
+static void tail_line(char *line)
+{
+    char name[48] = "";
+    unsigned long long n = 0, seed = 0;
+    double t[MAXP], p[1];
+    int off = 0;
+    if (sscanf(line, "%*s %47s %llu %llu%n", name, &n, &seed, &off) < 3) { printf("bad-op tail\n"); return; }
+    const int nt = parse_params(line + off, t);
+    if (nt < 1) { printf("bad-op tail\n"); return; }
+    unsigned long long cnt[MAXP] = { 0 };
+    long double se = 0.0L, se2 = 0.0L;
+    struct cmb_random_alias *alias = NULL;
+    const int is_nor = strcmp(name, "std_normal") == 0, is_exp = strcmp(name, "std_exponential") == 0;
+    cmb_random_initialize((uint64_t)seed);
+    for (unsigned long long i = 0; i < n; i++) {
+        double x;
+        if (is_nor) x = cmb_random_std_normal();
+        else if (is_exp) x = cmb_random_std_exponential();
+        else if (!sample(name, 0, p, &x, &alias)) { printf("tail %s unknown\n", name); return; }
+        const double a = fabs(x);
+        if (a > t[0]) {
+            cnt[0]++;
+            se += (long double)(a - t[0]);
+            se2 += (long double)(a - t[0]) * (long double)(a - t[0]);
+            for (int j = 1; j < nt; j++) if (a > t[j]) cnt[j]++;
+        }
+    }
+    printf("tail %s n=%llu sum=%.17Lg sumsq=%.17Lg counts", name, n, se, se2);
+    for (int j = 0; j < nt; j++) printf(" %llu", cnt[j]);
+    printf("\n");
+}
+
 static void stat_line(char *line)
 {
     char name[48] = "";
@@ -291,6 +327,7 @@ int main(int argc, char **argv)
         p[strcspn(p, "\r\n")] = 0;
         if (strcmp(mode, "supp") == 0 || strncmp(p, "supp ", 5) == 0) supp_line(p);
         else if (strcmp(mode, "stat") == 0 || strncmp(p, "stat ", 5) == 0) stat_line(p);
+        else if (strncmp(p, "tail ", 5) == 0) tail_line(p);
         else corr_line(p);
         fflush(stdout);
     }
